@@ -224,12 +224,12 @@ func init() {
 	// helper extraction: the new function is inlined by the normalisation (normalize.go) before the rules run
 	addControl(control{Prop: "C03", Name: "duration-int-case-extracted", Rule: "R03b", Kind: "refactor", Quick: true,
 		File: "reify.go", Old: "		if v.i < -maxSeconds || maxSeconds < v.i {\n			err = ErrOverflow\n		} else {\n			d = time.Duration(v.i) * time.Second\n		}\n	case *cfgUint:",
-		New: "		d, err = intSecondsToDuration(v.i, maxSeconds)\n	case *cfgUint:",
+		New:  "		d, err = intSecondsToDuration(v.i, maxSeconds)\n	case *cfgUint:",
 		More: []edit{{"reify.go", "func reifyDuration(", "func intSecondsToDuration(i, maxSeconds int64) (d time.Duration, err error) {\n	if i < -maxSeconds || maxSeconds < i {\n		err = ErrOverflow\n	} else {\n		d = time.Duration(i) * time.Second\n	}\n	return d, err\n}\n\nfunc reifyDuration("}}})
 	addControl(control{Prop: "C03", Name: "duration-int-case-extracted-unbounded", Rule: "R03b", Kind: "mutant",
 		File: "reify.go", Old: "		if v.i < -maxSeconds || maxSeconds < v.i {\n			err = ErrOverflow\n		} else {\n			d = time.Duration(v.i) * time.Second\n		}\n	case *cfgUint:",
-		New: "		d, err = intSecondsToDuration(v.i, maxSeconds)\n	case *cfgUint:",
-		More: []edit{{"reify.go", "func reifyDuration(", "func intSecondsToDuration(i, maxSeconds int64) (d time.Duration, err error) {\n	if maxSeconds < i {\n		err = ErrOverflow\n	} else {\n		d = time.Duration(i) * time.Second\n	}\n	return d, err\n}\n\nfunc reifyDuration("}},
+		New:    "		d, err = intSecondsToDuration(v.i, maxSeconds)\n	case *cfgUint:",
+		More:   []edit{{"reify.go", "func reifyDuration(", "func intSecondsToDuration(i, maxSeconds int64) (d time.Duration, err error) {\n	if maxSeconds < i {\n		err = ErrOverflow\n	} else {\n		d = time.Duration(i) * time.Second\n	}\n	return d, err\n}\n\nfunc reifyDuration("}},
 		Expect: "R03b/ucfg.reifyDuration"})
 	addControl(control{Prop: "C03", Name: "duration-bound-off-by-unit", Rule: "R03b", Kind: "mutant",
 		File: "reify.go", Old: "const maxSeconds = int64(math.MaxInt64 / time.Second)", New: "const maxSeconds = int64(math.MaxInt64 / time.Millisecond)", Expect: "R03b/ucfg.reifyDuration"})
